@@ -31,6 +31,13 @@ fn menu() -> Vec<Arg> {
         a("(u32, u32)", false, false),
         a("(Local, u32)", false, false), // tuples are never local
         a("T", false, true),
+        // the impl parameter inside a tuple (first / last element) and inside a two-parameter
+        // fundamental constructor (visible means ALL arguments visible, local means SOME argument local)
+        a("(u32, T)", false, true),
+        a("(T, u32)", false, true),
+        a("FUp2<Up, T>", false, true),
+        a("FUp2<Local, T>", true, true),
+        a("FUp2<Up, u32>", false, false),
     ]
 }
 
@@ -65,7 +72,7 @@ pub fn run_c20(rep: &Report) -> i32 {
             format!("<{}>", args[1..].iter().map(|a| menu[*a].text).collect::<Vec<_>>().join(", "))
         };
         let text = format!(
-            "struct Local {{}} #[upstream] struct Up {{}} #[upstream] #[fundamental] struct FUp<T> {{}} #[upstream] struct Up1<T> {{}} \
+            "struct Local {{}} #[upstream] struct Up {{}} #[upstream] #[fundamental] struct FUp<T> {{}} #[upstream] #[fundamental] struct FUp2<T, U> {{}} #[upstream] struct Up1<T> {{}} \
              {}trait Tr{} {{}} impl{} Tr{} for {} {{}}",
             if *trait_local { "" } else { "#[upstream] " },
             tparams,
